@@ -12,12 +12,14 @@ Definition answer_items (sc : schema) (line : bytes) : list item :=
 Definition brief (it : item) : item :=
   match it with IMsg t => IMsg (filter (fun tv => beq (fst tv) (dec T_MsgSeqNum) || beq (fst tv) (dec T_MsgType)) t) | x => x end.
 
-(* F22: store {3}, next_send 4, request [1,0]: the gap 1..2 is announced with MsgSeqNum 4 *)
-Theorem gapfill_seq_refuted :
-  c18_ok_line line_f22 (run_line schema0 line_f22) = false /\
+(* F22 repaired (/repo 930506b): store {3}, next_send 4, request [1,0]: the gap 1..2 is announced as 34=1 36=3,
+   and the oracle accepts the trace *)
+Theorem gapfill_seq_repaired :
+  c18_ok_line line_f22 (run_line schema0 line_f22) = true /\
+  c18_judged_line line_f22 (run_line schema0 line_f22) = 1 /\
   map brief (answer_items schema0 line_f22) =
-    [IGap 4 3; IMsg [(dec T_MsgType, [68]); (dec T_MsgSeqNum, dec 3)]; IGap 4 5].
-Proof. split; vm_compute; reflexivity. Qed.
+    [IGap 1 3; IMsg [(dec T_MsgType, [68]); (dec T_MsgSeqNum, dec 3)]; IGap 4 5].
+Proof. repeat split; vm_compute; reflexivity. Qed.
 
 (* store {2,4}, next_send 5, request [2,3]: the final gap fill announces 5 and thereby skips the stored 4 *)
 Theorem overreach_refuted :
@@ -58,7 +60,7 @@ Theorem nonvacuous :
   forallb (record_ok (dec_fn schema0)) (p_store (s_per s_f22)) = true /\
   range_bad (req_begin m_f22) (req_end m_f22) = false /\
   map fst (p_store (s_per s_f22)) = [3] /\ s_next_send s_f22 = 4 /\ req_begin m_f22 = 1 /\ req_end m_f22 = 0 /\
-  gaps (fst (plan (p_store (s_per s_f22)) (s_next_send s_f22) (req_begin m_f22) (req_end m_f22))) = [(4, 3); (4, 5)] /\
+  gaps (fst (plan (p_store (s_per s_f22)) (s_next_send s_f22) (req_begin m_f22) (req_end m_f22))) = [(1, 3); (4, 5)] /\
   map fst (resent (fst (plan (p_store (s_per s_f22)) (s_next_send s_f22) (req_begin m_f22) (req_end m_f22)))) = [3].
 Proof.
   split; [vm_compute; reflexivity|]. split; [vm_compute; reflexivity|]. split; [vm_compute; reflexivity|].
@@ -86,7 +88,6 @@ Theorem nonvacuous_oracle :
   forallb (Exact.exact_ok schema0 (dec_fn schema0)) (p_store (s_per s_good)) = true /\
   keys_below (s_next_send s_good) (p_store (s_per s_good)) = true /\
   range_bad (req_begin m_good) (req_end m_good) = false /\
-  no_gap_before_stored (p_store (s_per s_good)) (req_begin m_good) (req_end m_good) = true /\
   nothing_stored_beyond (p_store (s_per s_good)) (s_next_send s_good) (req_end m_good) = true /\
   map fst (p_store (s_per s_good)) = [2; 3] /\ s_next_send s_good = 4 /\ req_begin m_good = 2 /\ req_end m_good = 0.
 Proof.
@@ -121,3 +122,17 @@ Theorem states_judged :
      IMsg [(dec T_MsgType, [68]); (dec T_MsgSeqNum, dec 2)]; IMsg [(dec T_MsgType, [68]); (dec T_MsgSeqNum, dec 3)];
      IGap 4 5].
 Proof. repeat split; vm_compute; reflexivity. Qed.
+
+(* F22 before the repair, on Session.retrans_record_orig in the same state (store {3}, next_send 4, request
+   [1,0]): the callback for record 3 first emits a gap fill that the oracle's parser reads as 34=4 36=3 *)
+Definition orig_first_item : item :=
+  match p_store (s_per s_f22) with
+  | (k, raw) :: _ =>
+    match retrans_record_orig schema0 (dec_fn schema0) (w_now w_f22) (req_begin m_f22) 0 k raw s_f22 with
+    | (_, _, EOut w :: _) => parse_out w
+    | _ => IBad
+    end
+  | [] => IBad
+  end.
+Theorem gapfill_seq_orig_witness : orig_first_item = IGap 4 3.
+Proof. vm_compute. reflexivity. Qed.
